@@ -249,7 +249,8 @@ def check_calcmod(ctx, c, seed, r, dis):
     # members from the constructor arguments (generated initialisers, evaluated in double like the code)
     exp = [f32(c.phasespread / math.sqrt(c.revpart)), f32(c.amplspread / math.sqrt(c.revpart)), f32(c.modampl),
            f32(2 * math.pi * c.modinc)]
-    if [pn, an, ma, mtd] != [Fraction(x) for x in exp]:
+    # 2^-23 relative: the double expression may be re-associated harmlessly before it is narrowed to float
+    if any(abs(a - Fraction(b)) > abs(Fraction(b)) / 2 ** 23 for a, b in zip([pn, an, ma, mtd], exp)):
         dis.append(dict(case=case, detail=dict(what="dynamic members", impl=[str(x) for x in (pn, an, ma, mtd)], model=[fhex(x) for x in exp]),
                         sig=dict(kind="calcmod", stage="members", model=md)))
     # oracle, clause 4: pure sinusoidal modulation
